@@ -327,6 +327,16 @@ def work(item):
     exe = os.path.join(BUILD, "drv_C16")
     p = subprocess.run([exe], input="\n".join(to_input(cfg, ops) for _, cfg, ops in cases) + "\n", capture_output=True, text=True)
     outs = [json.loads(l) for l in p.stdout.split("\n") if l.startswith("{")]
+    if p.returncode < 0 and len(outs) < len(cases):
+        # the process died (signal) while running one history: the driver flushes one line per finished case, so the history after the
+        # last answered one is the suspect; confirm it in isolation and report it as the failing input (a crash on a legal history)
+        kind, cfg, ops = cases[len(outs)]
+        q = subprocess.run([exe], input=to_input(cfg, ops) + "\n", capture_output=True, text=True)
+        if q.returncode < 0:
+            return {"item": item, "crash": ("crash-on-history:signal-%d" % -q.returncode,
+                                            "the process died with signal %d while executing this operation history (kind %s)" % (-q.returncode, kind),
+                                            {"driver": "drv_C16", "input": to_input(cfg, ops), "ops": [show(o) for o in ops], "cfg": cfg,
+                                             "why": "drv_C16 killed by signal %d on this history alone; stderr: %s" % (-q.returncode, q.stderr[-300:])})}
     if p.returncode != 0 or len(outs) != len(cases):
         return {"item": item, "fail": "driver returned %d lines for %d cases; rc=%d %s" % (len(outs), len(cases), p.returncode, p.stderr[-500:])}
     r = {"item": item, "n": len(cases), "nops": 0, "viol": [], "terms": [], "sigs": set(), "kind": cases[0][0], "sample": None}
@@ -416,6 +426,10 @@ def run(ctx):
 
     with multiprocessing.get_context("fork").Pool(NPROC) as pool:
         for r in pool.imap(work, items, chunksize=1):
+            if "crash" in r:
+                sig_, text_, replay_ = r["crash"]
+                ctx.violation("C16:" + sig_, text_, replay_)
+                continue
             if "fail" in r:
                 if not any(b[1] == "drv_C16" for b in ctx.broken):
                     ctx.broke("correspondence", "drv_C16", "%s: %s" % (r["item"], r["fail"]))
